@@ -220,6 +220,7 @@ class Run:
         self.findings = []       # (key, what)
         self.originals = []      # (object, snapshot, how) of earlier copy()/new_species() sources
         self.was = {"ef": True, "gf": True, "hf": True}   # freshness at the previous step (report transitions only)
+        self.sn_skipped = 0      # G_cont comparisons skipped because only the symmetry number differs
         self.dead = False        # the species reached a state the oracle cannot track any further
 
     # ------------------------------------------------------------------ helpers
@@ -464,6 +465,14 @@ class Run:
             if ref is not None:
                 for nm, v in conts:
                     want = ref.get(nm)
+                    if want is not None and nm == "FreeEnergyCont" and abs(v - want) > 1e-8 * max(1.0, abs(want)):
+                        # G depends on the rotational symmetry number, which autode finds in an atom-ORDER dependent way
+                        # (known: C03 sn|permutation, C12 symmetry_number|atom-order-dependent).  That is no bookkeeping
+                        # defect: accept G if it is the reference G for some other symmetry number (counted), H decides.
+                        alt = self.thermo_reference(x, h, sns=(1, 2, 3, 4, 6, 8, 12, 24)) or {}
+                        if any(abs(v - w) <= 1e-8 * max(1.0, abs(w)) for w in alt.get("FreeEnergyCont@sn", [])):
+                            self.sn_skipped += 1
+                            continue
                     if want is not None and abs(v - want) > 1e-8 * max(1.0, abs(want)):
                         if ef and self.was["ef"]:
                             self.finding(f"{site}|stale-thermochemistry", f"after {op['k']} {nm}={v!r} but a fresh species at the "
@@ -489,14 +498,22 @@ class Run:
               "mult": int(s.mult)}
         return ob
 
-    def thermo_reference(self, x, h):
+    def thermo_reference(self, x, h, sns=None):
         from autode.species.species import Species
         from autode.atoms import Atom
         try:
-            f = Species("ref", [Atom(l, *c) for l, c in zip(self.labels(), x)], 0, int(self.s.mult))
-            f.hessian = h.copy()
-            f.calc_thermo()
-            return {type(v).__name__: float(v) for v in f.energies}
+            if sns is None:
+                f = Species("ref", [Atom(l, *c) for l, c in zip(self.labels(), x)], 0, int(self.s.mult))
+                f.hessian = h.copy()
+                f.calc_thermo()
+                return {type(v).__name__: float(v) for v in f.energies}
+            gs = []
+            for sn in sns:      # the same thermochemistry with an explicit symmetry number
+                f = Species("ref", [Atom(l, *c) for l, c in zip(self.labels(), x)], 0, int(self.s.mult))
+                f.hessian = h.copy()
+                f.calc_thermo(sn=sn)
+                gs += [float(v) for v in f.energies if type(v).__name__ == "FreeEnergyCont"]
+            return {"FreeEnergyCont@sn": gs}
         except Exception:
             return None
 
@@ -1540,6 +1557,8 @@ def run(ctx):
             ctx.count(stream, (start, json.dumps([s["op"] for s in r.steps[:i + 1]], sort_keys=True)), nontrivial=nontriv,
                       sample={"start": start, "ops": [s["op"]["k"] for s in r.steps[:i + 1]], "obs": st["obs"]})
             ctx.hist(stream, st["op"]["k"] + ("!" if st["err"] else ""))
+        for _ in range(getattr(r, "sn_skipped", 0)):
+            ctx.hist(stream, "G_cont-differs-by-symmetry-number-only(skipped)")
         for key, what in r.findings:
             findings.append((key, what, {"kind": "sequence", "n_atoms": r.n0, "ops": r.ops}))
 
